@@ -1,7 +1,7 @@
 (* C02 — SQLite: generated SQL runs and builds exactly the believed schema.  Pinned statements only. *)
 From VV.M1 Require Import Validate.
 From Coq Require Import Permutation.
-From VV.SQLITE Require Import Corr Known WitnessP RowsP RebuildP SimP Sim2P Sim4P Sim5P Sim6P Sim7P Sim3P.
+From VV.SQLITE Require Import Corr Known WitnessP RowsP RebuildP SimP Sim2P Sim4P Sim5P Sim6P Sim7P Sim8P Sim9P Sim3P.
 
 (* the full-strength target for one migration (a definition, not a claim): for every replayed baseline and every plan
    that replays, the model generator's statements execute on the engine model from the believed catalog and end in
@@ -394,7 +394,7 @@ Check C02_sim_sqlite_remove_index : forall fk s c t n cols s' l c',
 
 Theorem C02_sim_sqlite_remove_constraint_rebuild : forall fk s c t k td s' l c',
   Sim s c -> ci_exact s t = true -> temp_free s t = true -> unique_table s t = true ->
-  match k with CUnique _ _ | CForeignKey _ _ _ _ _ _ | CCheck _ _ => True | _ => False end ->
+  match k with CIndex _ _ => False | _ => True end ->
   find_table t s = Some td ->
   forallb (fun c0 => Bool.eqb (keep_after_remove k c0) (negb (constraint_eqb c0 k))) (t_constraints td) = true ->
   pk_sane (mkTable (t_name td) (t_description td) (t_columns td)
@@ -407,7 +407,7 @@ Proof. exact sim_sqlite_remove_constraint_rebuild. Qed.
 Print Assumptions C02_sim_sqlite_remove_constraint_rebuild.
 Check C02_sim_sqlite_remove_constraint_rebuild : forall fk s c t k td s' l c',
   Sim s c -> ci_exact s t = true -> temp_free s t = true -> unique_table s t = true ->
-  match k with CUnique _ _ | CForeignKey _ _ _ _ _ _ | CCheck _ _ => True | _ => False end ->
+  match k with CIndex _ _ => False | _ => True end ->
   find_table t s = Some td ->
   forallb (fun c0 => Bool.eqb (keep_after_remove k c0) (negb (constraint_eqb c0 k))) (t_constraints td) = true ->
   pk_sane (mkTable (t_name td) (t_description td) (t_columns td)
@@ -434,10 +434,86 @@ Check C02_sim_sqlite_rename_table : forall fk s c from to td s' c',
   exec_all fk c [SRenameTable from to] 0 = Ok c' ->
   Sim s' c'.
 
+(* RemoveConstraint of the primary key, outside known_C02_inline_pk_survives (no inline primary_key field is left): the table is
+   rebuilt without a key and [pk_sane] admits such tables in every later action *)
+Theorem C02_sim_sqlite_remove_primary_key : forall fk s c t a cols td s' l c',
+  let k := CPrimaryKey a cols in
+  Sim s c -> ci_exact s t = true -> temp_free s t = true -> unique_table s t = true ->
+  find_table t s = Some td ->
+  forallb (fun c0 => Bool.eqb (keep_after_remove k c0) (negb (constraint_eqb c0 k))) (t_constraints td) = true ->
+  nodup_names (map c_name (t_columns td)) = true -> no_inline_pk td = true ->
+  apply_action s (RemoveConstraint t k) = Ok s' ->
+  gen s [] (RemoveConstraint t k) = GOk l ->
+  exec_all fk c l 0 = Ok c' ->
+  Sim s' c'.
+Proof. exact sim_sqlite_remove_primary_key. Qed.
+Print Assumptions C02_sim_sqlite_remove_primary_key.
+Check C02_sim_sqlite_remove_primary_key : forall fk s c t a cols td s' l c',
+  let k := CPrimaryKey a cols in
+  Sim s c -> ci_exact s t = true -> temp_free s t = true -> unique_table s t = true ->
+  find_table t s = Some td ->
+  forallb (fun c0 => Bool.eqb (keep_after_remove k c0) (negb (constraint_eqb c0 k))) (t_constraints td) = true ->
+  nodup_names (map c_name (t_columns td)) = true -> no_inline_pk td = true ->
+  apply_action s (RemoveConstraint t k) = Ok s' ->
+  gen s [] (RemoveConstraint t k) = GOk l ->
+  exec_all fk c l 0 = Ok c' ->
+  Sim s' c'.
+
+
+(* DeleteColumn through ALTER TABLE … DROP COLUMN, preceded by the DROP INDEX statements of the single-column indexes / uniques
+   over the column: outside known_C02_composite_member_drop / known_C02_check_survives_column_drop ([delcol_ok]); the names of
+   the dropped indexes belong to nothing else ([delcol_names_ok]) *)
+Theorem C02_sim_sqlite_delete_column_plain : forall fk s c t col td drops s' c',
+  Sim s c -> ci_exact s t = true -> unique_table s t = true ->
+  find_table t s = Some td ->
+  delete_column_scan t col (t_constraints td) [] = DcDrops drops ->
+  col_not_enum col td = true ->
+  col_ci_exact col td = true ->
+  forallb (delcol_ok col) (t_constraints td) = true ->
+  delcol_names_ok s t col td = true ->
+  apply_action s (DeleteColumn t col) = Ok s' ->
+  exec_all fk c (drops ++ [SDropColumn t col]) 0 = Ok c' ->
+  Sim s' c'.
+Proof. exact sim_sqlite_delete_column_plain. Qed.
+Print Assumptions C02_sim_sqlite_delete_column_plain.
+Check C02_sim_sqlite_delete_column_plain : forall fk s c t col td drops s' c',
+  Sim s c -> ci_exact s t = true -> unique_table s t = true ->
+  find_table t s = Some td ->
+  delete_column_scan t col (t_constraints td) [] = DcDrops drops ->
+  col_not_enum col td = true ->
+  col_ci_exact col td = true ->
+  forallb (delcol_ok col) (t_constraints td) = true ->
+  delcol_names_ok s t col td = true ->
+  apply_action s (DeleteColumn t col) = Ok s' ->
+  exec_all fk c (drops ++ [SDropColumn t col]) 0 = Ok c' ->
+  Sim s' c'.
+
+
+(* RenameColumn, outside known_C02_rename_column ([rencol_ok]: the column is in no index / unique, is no enum, no CHECK text
+   changes, no other table references it, no own foreign key to another table names a referenced column spelled like it; the
+   old name has no case variant and the new name is unused) *)
+Theorem C02_sim_sqlite_rename_column : forall fk s c t from to td s' c',
+  Sim s c -> ci_exact s t = true -> unique_table s t = true ->
+  find_table t s = Some td ->
+  rencol_ok s t from to td = true ->
+  apply_action s (RenameColumn t from to) = Ok s' ->
+  exec_all fk c [SRenameColumn t from to] 0 = Ok c' ->
+  Sim s' c'.
+Proof. exact sim_sqlite_rename_column. Qed.
+Print Assumptions C02_sim_sqlite_rename_column.
+Check C02_sim_sqlite_rename_column : forall fk s c t from to td s' c',
+  Sim s c -> ci_exact s t = true -> unique_table s t = true ->
+  find_table t s = Some td ->
+  rencol_ok s t from to td = true ->
+  apply_action s (RenameColumn t from to) = Ok s' ->
+  exec_all fk c [SRenameColumn t from to] 0 = Ok c' ->
+  Sim s' c'.
+
+
 (* lifted over whole plans (evolving schema, pending constraints) and whole histories by induction: no bound on tables, actions
-   or migrations.  PARTIAL: plan_hyp admits every action kind except RenameColumn, the ALTER TABLE DROP COLUMN path of
-   DeleteColumn and RemoveConstraint of a primary key, each under the decidable side conditions of step_hyp (A2, A3, A5 and
-   "outside the recorded classes"); what it does not admit rests on the libsqlite3 oracle. *)
+   or migrations.  plan_hyp admits every action kind, each under the decidable side conditions of step_hyp (A2, A3, A5 and
+   "outside the recorded classes"); PARTIAL as partial correctness (the engine model must execute the statements), and what
+   the side conditions do not admit rests on the libsqlite3 oracle. *)
 Theorem C02_Sim_plan_partial : forall fk acts s c ls s' c',
   Sim s c -> plan_hyp s acts = true ->
   apply_all s acts = Ok s' ->
@@ -469,6 +545,12 @@ Example C02_history_hyp_satisfiable2 :
   (exists r, run_history true [] empty_catalog demo_history2 = Some r)
   /\ (exists r, run_history false [] empty_catalog demo_history2 = Some r).
 Proof. exact demo_history2_runs. Qed.
+(* … and by a history through RenameColumn, the ALTER TABLE DROP COLUMN path and RemoveConstraint of a primary key (the same
+   history is corpus/sqlite/sim_demo_history3.json and replays on libsqlite3 with the implementation's SQL) *)
+Example C02_history_hyp_satisfiable3 :
+  (exists r, run_history true [] empty_catalog demo_history3 = Some r)
+  /\ (exists r, run_history false [] empty_catalog demo_history3 = Some r).
+Proof. exact demo_history3_runs. Qed.
 
 (* non-vacuity of the positive statements: a plan with a rebuild, a plain ADD COLUMN, an index and a CREATE TABLE *)
 Example C02_holds_somewhere : c02_holds true ok_base ok_plan = true /\ c02_holds false ok_base ok_plan = true.
